@@ -151,7 +151,7 @@ def describe_instance(inst):
 
 
 TRIGGERS = ["instantiate", "instantiate_kw", "spec_class_attr", "dataclass_fields", "dataclasses_fields", "subclass_instantiate", "subclass_meta",
-            "meta_then_helper"]
+            "meta_then_helper", "fields_then_helper"]
 
 
 def trigger(ns, body, name):
@@ -177,6 +177,11 @@ def trigger(ns, body, name):
         first = next(iter(md.attrs))
         helper = getattr(C, "with_" + first)  # a class seen as bootstrapped must already carry its helpers
         return ("meta+helper", sorted(md.attrs), callable(helper), sorted(n for n in ("__init__", "__setattr__", "update", "reset") if n in vars(C)))
+    if name == "fields_then_helper":
+        fields = C.__dataclass_fields__
+        first = next(iter(fields))
+        helper = getattr(C, "with_" + first)  # a class that hands out its fields must already carry its helpers
+        return ("fields+helper", sorted(fields), callable(helper), sorted(n for n in ("__init__", "__setattr__", "update", "reset") if n in vars(C)))
     if name == "subclass_meta":
         Sub = type("Sub", (C,), {})
         return ("meta", sorted(Sub.__spec_class__.attrs))
@@ -473,11 +478,11 @@ def work(task):
 def main(run):
     quick = run.tier == "quick"
     tasks = [{"part": "seq", "body": b} for b in BODIES]
-    pairs = [("instantiate", "instantiate"), ("instantiate", "meta_then_helper"), ("spec_class_attr", "dataclass_fields"),
+    pairs = [("instantiate", "instantiate"), ("instantiate", "meta_then_helper"), ("instantiate", "fields_then_helper"), ("spec_class_attr", "dataclass_fields"),
              ("instantiate_kw", "subclass_instantiate"), ("dataclasses_fields", "instantiate"), ("subclass_meta", "instantiate")]
     bodies_q = ["attr_factory", "one_attr", "inherit_lazy_parent", "own_new"]
     for b in (bodies_q if quick else list(BODIES)):
-        for tp in (pairs[:2] if quick else pairs):
+        for tp in (pairs[:3] if quick else pairs):
             tasks.append({"part": "threads", "body": b, "triggers": list(tp), "bound": 1})
     if not quick:
         tasks.append({"part": "threads", "body": "one_attr", "triggers": ["instantiate", "instantiate"], "bound": 2})
